@@ -138,7 +138,8 @@ func runC12(a *Analyzer, r *Results) {
 	// ---- R1 loops: message arms
 	loops := []string{"(*leanhelix.WorkerLoop).Run", idMainRun}
 	for _, id := range loops {
-		fn := a.P.Func(id)
+		lb := a.loopBodyOf(id)
+		fn := lb.body
 		// received raw messages: Select with a receive state on a chan of *ConsensusRawMessage, or a plain receive
 		var received []ssa.Value
 		for _, b := range fn.Blocks {
@@ -173,6 +174,11 @@ func runC12(a *Analyzer, r *Results) {
 			continue
 		}
 		selfBoundary, _ := recoverBoundary(fn)
+		if lb.entry != fn {
+			if sb, _ := recoverBoundary(lb.entry); sb {
+				selfBoundary = true
+			}
+		}
 		r.Check("R1.loop-boundary", pr, "the event loop function itself does not recover (a boundary around the loop would end the loop)", shortName(fn), a.P.Pos(fn.Pos()), !selfBoundary, "the loop function installs a recover", "R")
 		nScope := 0
 		for _, b := range fn.Blocks {
